@@ -49,6 +49,7 @@ const (
 	bWriteFail = "writefail" // Write fails with EPIPE
 	bServfail  = "servfail"  // matching SERVFAIL reply
 	bDup       = "dup"       // the matching reply, sent twice (the copy stays unread on the connection)
+	bHold      = "hold"      // the matching reply, delivered only when the harness releases it (keeps an exchange in flight)
 )
 
 var c17Behaviours = []string{
@@ -86,6 +87,11 @@ type c17Srv struct {
 	nconn map[Network]int
 	exch  *int
 	log   []c17Sent
+	// holds are the release channels of the replies being held back, in the
+	// order the requests arrived.
+	holds []chan struct{}
+	// conns are all connections dialled, in order.
+	conns []*c17Conn
 }
 
 func c17OpErr(op string, nw Network, errno syscall.Errno) error {
@@ -109,7 +115,10 @@ func (s *c17Srv) factory(nw Network) pool.Factory {
 			return nil, c17OpErr("dial", nw, syscall.ECONNREFUSED)
 		}
 
-		return &c17Conn{srv: s, nw: nw, idx: idx}, nil
+		c := &c17Conn{srv: s, nw: nw, idx: idx}
+		s.conns = append(s.conns, c)
+
+		return c, nil
 	}
 }
 
@@ -128,6 +137,8 @@ type c17Conn struct {
 	wbuf   []byte
 	rerr   error
 	closed bool
+	// hold, when not nil, blocks Read until it is closed.
+	hold chan struct{}
 	// dirtyAt[e] is set when a request of exchange e was written while
 	// unread reply bytes of an earlier request were pending.
 	dirtyAt map[int]bool
@@ -218,6 +229,10 @@ func (c *c17Conn) serve(raw []byte) (werr error) {
 	switch beh {
 	case bMatch, bDup:
 		reply = mk()
+	case bHold:
+		reply = mk()
+		c.hold = make(chan struct{})
+		c.srv.holds = append(c.srv.holds, c.hold)
 	case bServfail:
 		reply = mk()
 		reply.Answer = nil
@@ -295,7 +310,7 @@ func (c *c17Conn) serve(raw []byte) (werr error) {
 		if err = sent.reply.Unpack(rawReply); err != nil {
 			vrt.Fatalf("c17: unpacking scripted reply: %v", err)
 		}
-		if beh == bMatch || beh == bCaseName || beh == bServfail || beh == bDup {
+		if beh == bMatch || beh == bCaseName || beh == bServfail || beh == bDup || beh == bHold {
 			c.prev = sent.reply
 		}
 	}
@@ -324,6 +339,19 @@ func (c *c17Conn) Read(b []byte) (n int, err error) {
 	}
 	if !c.rdl.IsZero() && !time.Now().Before(c.rdl) {
 		return 0, c17TimeoutErr("read", c.nw)
+	}
+	if c.hold != nil {
+		// The reply is on its way: wait until the harness lets it arrive.
+		var dl <-chan time.Time
+		if !c.rdl.IsZero() {
+			dl = time.After(time.Until(c.rdl))
+		}
+		select {
+		case <-c.hold:
+			c.hold = nil
+		case <-dl:
+			return 0, c17TimeoutErr("read", c.nw)
+		}
 	}
 	if c.nw == NetworkUDP && len(c.dgrams) > 0 {
 		n = copy(b, c.dgrams[0])
@@ -774,6 +802,11 @@ func TestVerifC17Upstream(t *testing.T) {
 			func(c c17UpCase) []vrt.Finding { return c17RunUpCase(r, c) })
 		vrt.Part(r, "e2e", func(emit func(c17E2ECase)) { c17GenE2ECases(r, emit) },
 			func(c c17E2ECase) []vrt.Finding { return c17RunE2ECase(r, c) })
+	})
+	r.Bound("pool_histories", fmt.Sprintf("%v overlapping exchanges fill the pool, every subset of the pooled connections dies idle (5 ways), then exchanges / query / health-check round + query", vrt.Pick(r, []int{2}, []int{2, 3})))
+	synctest.Test(t, func(t *testing.T) {
+		vrt.Part(r, "pool", func(emit func(c17PoolCase)) { c17GenPoolCases(r, emit) },
+			func(c c17PoolCase) []vrt.Finding { return c17RunPoolCase(r, c) })
 	})
 	// Real loopback sockets and real time: outside the bubble.
 	r.Bound("init_cases", "fallbacks {0,1} x mains {1,2} x {ok, SERVFAIL, silent}^mains during NewHandler's initial health check, then queries, round, queries, round, queries")
